@@ -185,24 +185,16 @@ def run(chk):
 
     # ------------------------------------------------------------------ R08.3
     bm = chk.repo.func(BILLING_DATA, "_BillingData._compute_meter_value_df")
-    bpc = PatCtx(bm.node)
-    from engine.pattern import Expander, find as pfind
-    bex = Expander(bm.node, through_updates=True)
-    spread_ok = False
-    from engine.dataflow import ReachingDefs as _RD, backward_slice_exprs as _bse
-    rd_b = _RD(bm.node)
-    cands = []
-    ret_names = set()
-    for rt in [x for x in walk_no_nested(bm.node) if isinstance(x, ast.Return) and x.value is not None]:
-        cands.append((rt.value, rt))
-        for e in _bse(rd_b, rt, rt.value, 8):
-            ret_names |= {n.id for n in ast.walk(e) if isinstance(n, ast.Name)}
-    for st in [x for x in walk_no_nested(bm.node) if isinstance(x, ast.Assign) and isinstance(x.targets[0], ast.Name) and x.targets[0].id in ret_names]:
-        cands.append((st.value, st))
-    for val, at in cands:
-        full = bex.expand(val, at, depth=8)
-        if pfind("as_freq(__['value'], 'D').to_frame('value')[:-1]", full) or pfind("as_freq(__['value'], 'D')[:-1]", full) or pfind("as_freq(__.value, 'D').to_frame('value')[:-1]", full):
-            spread_ok = True
-    r3.require(spread_ok, f"{bm.key}|spread-to-days", bm.where(),
-               "billing usage must be spread to days with the cumulative branch (as_freq(<value>, 'D'), default atoms) and the open-ended final row dropped ([:-1]) in what is returned")
-    r3.require(bpc.has("_MS_[_E_ + pd.Timedelta(days=1)] = np.nan"), f"{bm.key}|final-nan-convention", bm.where(), "the final period must be closed by a NaN row one day after the last covered day")
+    # interpreted on recording values for every granularity and branch (rules/billingspread.py): what is returned derives from
+    # as_freq(<cleaned bills>['value'], 'D') (cumulative branch, default atoms) with the open final row dropped, and before the bills are
+    # cleaned a NaN reading closes the last period one day after the last covered day
+    from rules.billingspread import judge as _billing_spread
+    bbad, bn = _billing_spread(chk, bm)
+    bmsg = dict(bbad)
+    if bn < 3:
+        raise AnalysisError(f"{bm.key}: only {bn} interpreted path(s) with usage (anchor changed)")
+    r3.require("spread-to-days" not in bmsg, f"{bm.key}|spread-to-days", bm.where(),
+               "billing usage must be spread to days with the cumulative branch (as_freq(<value>, 'D'), default atoms) and the open-ended final row dropped ([:-1]) in what is returned: " + bmsg.get("spread-to-days", ""))
+    r3.require("final-nan-convention" not in bmsg, f"{bm.key}|final-nan-convention", bm.where(),
+               "the final period must be closed by a NaN row one day after the last covered day: " + bmsg.get("final-nan-convention", ""))
+    r3.inst(f"{bm.key}|paths[{bn}]", {"interpreted_paths_with_usage": bn})
